@@ -528,8 +528,24 @@ def rule_com_variations(ctx):
                 return d['name']
         return None
 
+    # locals that merely name one particle of the loop (const struct reb_particle* pv = &particles[i+index]; or a copy)
+    aliases = {}
+    for d in walk(cfront.body(fn)):
+        if d.get('kind') == 'VarDecl' and 'init' in d and 'reb_particle' in qtype(d):
+            ini = [c_ for c_ in d.get('inner', []) if c_.get('kind') not in ('FullComment',)]
+            if ini:
+                t_ = render(ini[-1]).replace(' ', '')
+                t_ = re.sub(r'^\(?&\(?', '', t_).rstrip(')')
+                if re.match(r'^(?:r\.)?particles\[', t_):
+                    if t_.count('(') > t_.count(')'):
+                        t_ += ')' * (t_.count('(') - t_.count(')'))
+                    aliases[d['name']] = t_
+
     def operand_class(txt, lv):
         """particles[(i+idx)].fld -> (class of idx or 'real', fld)"""
+        ma = re.match(r'^\(?\*?(\w+)\)?\.(\w+)$', txt)
+        if ma and ma.group(1) in aliases:
+            txt = aliases[ma.group(1)] + '.' + ma.group(2)
         m_ = re.match(r'^(?:r\.)?particles\[\(?(\w+)(?:\+(\w+))?\)?\]\.(\w+)$', txt)
         if not m_ or m_.group(1) != lv:
             return None
@@ -566,6 +582,8 @@ def rule_com_variations(ctx):
         if shift is None:
             continue
         text = ' '.join(render(rhs) for lvn, op, rhs, ln in accs)
+        for al_, full_ in aliases.items():
+            text = re.sub(r'\b%s\b' % re.escape(al_), full_, text)
         order = 2 if any(k_ in text for k_, c_ in idx_class.items() if c_ == 'a') else 1
         found[order] += 1
 
